@@ -68,9 +68,9 @@ def end_to_end(ctx, gdir, funcs, methods):
     bins = {"cli": (ctx.build_repo_bin("cmd/go-critic"), ["check", "-enableAll"]), "analysis": (ctx.build_repo_bin("cmd/go-critic-analysis"), ["-enable-all"])}
     n = 0
     for fe, (b, pre) in bins.items():
-        for v in (14, 16, 17):
-            for rep in range(2 if fe == "analysis" else 1):
-                r = subprocess.run([b] + pre + ["-go=1.%d" % v, "./..."], cwd=d, capture_output=True, text=True, env=vlib.goenv(), timeout=600)
+        for v, form in ((14, "1.%d"), (16, "1.%d"), (17, "1.%d"), (14, "go1.%d"), (16, "go1.%d")):
+            for rep in range(2 if fe == "analysis" and form == "1.%d" else 1):
+                r = subprocess.run([b] + pre + ["-go=" + form % v, "./..."], cwd=d, capture_output=True, text=True, env=vlib.goenv(), timeout=600)
                 n += 1
                 lines_src = src.splitlines()
                 for l in (r.stderr + r.stdout).splitlines():
